@@ -19,6 +19,6 @@ def main():
         plan = r.pop("plan", None)
         print(i, f"{time.time()-t:.2f}s", r["status"], r.get("digest"), "eval", r.get("evaluations"), json.dumps(r.get("stats", {}).get("probes")), json.dumps(r.get("stats", {}).get("faults")))
         if r["status"] != "ok":
-            print(json.dumps(r.get("violation"), indent=1)[:3000])
+            v=r.get("violation") or {}; print("   ", v.get("inv"), "|", v.get("sig"), "| step", v.get("step"), v.get("op"), "|", str(v.get("detail", r.get("error")))[:(3000 if "-v" in sys.argv else 400)].replace("\n", " ~ "))
             if "-v" in sys.argv: print(json.dumps(plan)[:3000])
 main()
